@@ -172,6 +172,7 @@ func cmdCheck(args []string) int {
 		cfg.NoTimers = e.NoTimers
 		cfg.TimerHorizonNs = int64(e.TimerHorizonS) * 1e9
 		cfg.RaceCheck = e.RaceCheck
+		cfg.NoStateHash = e.NoStateHash || os.Getenv("VERIF_NO_STATE_HASH") != ""
 		cfg.StopOnViolation = e.Witness
 		eng.cfg = cfg
 		timeout := 600
@@ -180,8 +181,8 @@ func cmdCheck(args []string) int {
 		}
 		es := eng.explore(fn, e.MaxPaths, time.Now().Add(time.Duration(timeout)*time.Second))
 		all = append(all, es)
-		fmt.Printf("[%s] %s: paths=%d completed=%d infeasible=%d decisions=%d queries=%d (sat %d unsat %d unknown %d cachehits %d) solver=%.1fs wall=%.1fs violations=%d\n",
-			spec.Property, e.Name, es.Paths, es.Completed, es.Infeasible, es.Decisions, es.Solver.Queries, es.Solver.Sat, es.Solver.Unsat, es.Solver.Unknown, es.Solver.CacheHits, es.Solver.Seconds, es.Wall, len(es.Violations))
+		fmt.Printf("[%s] %s: paths=%d completed=%d pruned=%d infeasible=%d decisions=%d queries=%d (sat %d unsat %d unknown %d cachehits %d) solver=%.1fs wall=%.1fs violations=%d\n",
+			spec.Property, e.Name, es.Paths, es.Completed, es.Pruned, es.Infeasible, es.Decisions, es.Solver.Queries, es.Solver.Sat, es.Solver.Unsat, es.Solver.Unknown, es.Solver.CacheHits, es.Solver.Seconds, es.Wall, len(es.Violations))
 		if e.Witness {
 			found := false
 			for _, v := range es.Violations {
@@ -396,7 +397,7 @@ func writeEvidence(vd string, spec *CheckSpec, tier string, seed int, wall, load
 			intr[f] = true
 		}
 		perEntry = append(perEntry, map[string]interface{}{
-			"entry": es.Entry, "paths_started": es.Paths, "paths_completed": es.Completed, "paths_infeasible": es.Infeasible,
+			"entry": es.Entry, "paths_started": es.Paths, "paths_completed": es.Completed, "paths_infeasible": es.Infeasible, "paths_pruned_state_seen": es.Pruned,
 			"paths_with_symbolic_pc": es.SymbolicPath, "decisions": es.Decisions, "forks": es.Forks,
 			"solver_queries": es.Solver.Queries, "sat": es.Solver.Sat, "unsat": es.Solver.Unsat, "unknown": es.Solver.Unknown,
 			"model_cache_hits": es.Solver.CacheHits, "solver_s": round3(es.Solver.Seconds), "wall_s": round3(es.Wall),
